@@ -44,6 +44,7 @@ RULE = (
 ASSUMPTIONS = [
     "asyncio.StreamReader.readuntil semantics for over-long lines (data stays in the reader) are trusted; no recovery is demanded after them",
     "connect faults are injected at asyncio.open_connection / aiomysensors.transport.serial.open_serial_connection, the names the repository's tests patch",
+    "the `pty` cases use a real pseudo terminal and the write-hang check a real socket pair: they are bounded by 20 s of real time per call, reached only when a call never returns",
 ]
 DELETABLE = ("lines", "cuts", "writes")
 
